@@ -1,3 +1,3 @@
 SPECIFICATION Spec
-INVARIANT AcceptIffAuthentic Unforgeable ModificationRejected TotalAccessors UncheckedStillValidates
+INVARIANT AcceptIffAuthentic Unforgeable RelayBoundToKey FullPacketIsNoRelayPayload ModificationRejected TotalAccessors UncheckedStillValidates
 CHECK_DEADLOCK FALSE
